@@ -588,6 +588,10 @@ class Lexer:
         if expression is None:
             expression = self.expression
 
+        if len(expression) < 5:  # noqa: PLR2004
+            # `(`, start, `..`, stop and `)`
+            self.error("malformed range expression")
+
         rparen = expression.pop()
         assert is_token_type(rparen, TokenType.RPAREN)
 
